@@ -145,6 +145,19 @@ def gen(rng, tier):
     pins = list(TRIVIAL) + ["00102003", "03145154", "99999998", "00000001", "12345679", "", "1", "1234567", "123456789", "031-45-154",
                             "1234567a", "a2345678", "１２３４５６７８", "+1234567", " 1234567", "1234567 ", "12345678\n", "0x123456", "-1234567",
                             "12 45678", "٠١٢٣٤٥٦٧", "0000000", "000000000", "1e345678"]
+    # non-ASCII decimal digits whose UTF-8 encoding makes the string exactly eight bytes long
+    uni2 = ["\u0660", "\u0667", "\u06f3", "\u07c1"]            # 2-byte digits
+    uni3 = ["\uff13", "\u0967", "\u0e53", "\u1049"]            # 3-byte digits
+    pins += ["123456" + uni2[1], "00102" + uni3[0], "".join(uni2), uni3[0] + uni3[1] + uni2[0], "12" + uni3[2] + uni3[3], "1234" + uni2[0] + uni2[2],
+             uni2[3] + "123456", "\u00b2\u00b3\u00b9\u00bc", "1234567\x00", "\x001234567", "1234567\x7f", "1234567/", "1234567:"]
+    for _ in range(10 if tier == "quick" else 300):
+        parts, n = [], 0
+        while n < 8:
+            ch = rng.choice(uni2 + uni3 + list("0123456789") * 2)
+            if n + len(ch.encode()) <= 8:
+                parts.append(ch)
+                n += len(ch.encode())
+        pins.append("".join(parts))
     for _ in range(60 if tier == "quick" else 4000):
         pins.append("%08d" % rng.randrange(10 ** 8))
     for _ in range(30 if tier == "quick" else 1000):
@@ -174,6 +187,10 @@ def gen(rng, tier):
         if rng.random() < 0.3:
             opts.append("sid=" + rng.choice(["ABCD", "X1Z9"]).encode().hex())
         add("hist/live" if live else "hist", "hist " + " ".join(opts + gen_history(rng, live)))
+    # many different structures restarted unchanged (a hash-dependent spurious change would show)
+    for i in range(40 if tier == "quick" else 600):
+        st = gen_struct(rng)
+        add("hist/twice", "hist S:%s:-:%d X S:%s:%s:%d S:%s:%s:%d T" % (st, cat_of(st), st, gen_vals(rng, st), cat_of(st), st, gen_vals(rng, st), cat_of(st)))
     add("hist/badpin", "hist S:l:-:5 X pin=11111111 S:l:-:5 T pin=00102003 S:l1:-:5 T E")
     return cases
 
